@@ -548,10 +548,39 @@ def make_interp(P, unit, opaque=(), extra_models=None, loop_limit=1, globals_=No
                 return Obj(None, lazy=False, label=name,
                            fields={'si_signo': f('si_signo'), 'si_errno': f('si_errno'), 'si_code': f('si_code'),
                                    '_sifields': Obj(None, lazy=False, fields={'_sigchld': chld})})
+            if tt == 'sigaction' and tt not in unit.records:
+                return _sigaction_obj(name, zero)
         if v is _UNINIT:
             return Sym('uninit:%s' % name, t)
         return v
     it.default_value = default_value
+
+    def _sigaction_obj(name, zero):
+        # struct sigaction as glibc lays it out (sa_handler / sa_sigaction are members of the union __sigaction_handler)
+        def f(x):
+            return 0 if zero else Sym('uninit:%s.%s' % (name, x), 'int')
+        return Obj(None, lazy=False, label=name,
+                   fields={'__sigaction_handler': Obj(None, lazy=False, fields={'sa_handler': f('sa_handler')}),
+                           'sa_mask': Obj(None, lazy=True), 'sa_flags': f('sa_flags'), 'sa_restorer': f('sa_restorer')})
+    orig_initlist = it.eval_initlist
+
+    def eval_initlist(n, env):
+        t = (n.dtype or n.type or '').replace('struct ', '').replace('const ', '').strip()
+        if t == 'sigaction' and t not in unit.records:
+            # `= {0}` / `= {}`: an all-zero object
+            def zero_init(c):
+                if c.kind == 'ImplicitValueInitExpr':
+                    return True
+                if c.kind == 'InitListExpr':
+                    return all(zero_init(k) for k in c.inner)
+                try:
+                    return c.strip_all().int_value() == 0
+                except Exception:
+                    return False
+            if all(zero_init(c) for c in n.inner):
+                return _sigaction_obj('sigaction', True)
+        return orig_initlist(n, env)
+    it.eval_initlist = eval_initlist
     orig_declref = it.e_DeclRefExpr
 
     def e_DeclRefExpr(n, env):
